@@ -317,6 +317,8 @@ func isLockKind(k string) bool {
 	return false
 }
 
+var noSweep bool
+
 const axiomMarker = "\n;;AXIOMS;;\n"
 
 type solverSpec struct {
@@ -478,6 +480,32 @@ func discharge(o *Obligation, prelude, dir string, timeoutS, seed int, both bool
 	}
 	cancel()
 	o.TimeS = time.Since(start).Seconds()
+	if final == nil && o.Expect != "sat" && !noSweep {
+		// seed sweep: the quantifier-heavy obligations are decided in a fraction of a second or not at
+		// all, depending on the solver's random seed; a proof found with any seed is a proof
+		ctx2, cancel2 := context.WithCancel(context.Background())
+		sw := make(chan solveResult, 8)
+		n := 0
+		for k := 0; k < 8; k++ {
+			if k == seed {
+				continue
+			}
+			n++
+			go func(k int) { sw <- runSolver(ctx2, solvers[0], text, dir, fmt.Sprintf("%s.sw%d", base, k), 4, k) }(k)
+		}
+		for i := 0; i < n; i++ {
+			r := <-sw
+			if r.verdict == "unsat" && final == nil {
+				rr := r
+				rr.solver = r.solver + "(seed sweep)"
+				final = &rr
+				o.Agree = 1
+				cancel2()
+			}
+		}
+		cancel2()
+		o.TimeS = time.Since(start).Seconds()
+	}
 	if final == nil {
 		o.Status = "undischarged"
 		var ds []string
